@@ -35,6 +35,23 @@ Rng(s) == {s[i] : i \in DOMAIN s}
 Norm(a) == [k \in Keys |-> a[k]]
 NoFilter == [on |-> FALSE, keep |-> <<>>]
 KeepSet(f) == {f.keep[i] : i \in DOMAIN f.keep}
+(* Attribute VALUES are typed: a value is (type, textual form).  Values >= 1000 *)
+(* spell that out, v = 1000 * type + n:                                        *)
+(*   type 1 int n   2 string "n"   3 float64 n   4 one-element int slice [n]   *)
+(*        5 string "[n]"   6 bool (n = 1 true, n = 2 false)   7 string "true"  *)
+(*        / "false"                                                            *)
+(* Values 1..999 are untyped tokens (one representation per run, chosen by the *)
+(* harness).  Types 1-3, 4-5 and 6-7 print alike (VText) but are DIFFERENT      *)
+(* values: "streams that become identical" means the same key -> typed value    *)
+(* mapping, i.e. equality of the functions below - never equality of what an    *)
+(* encoder or fmt prints.  SameText / TextTwins name the class: sets a # b      *)
+(* whose values print alike under every key.                                   *)
+Typed(v) == v >= 1000
+VType(v) == v \div 1000
+TextClass(t) == CASE t \in {1, 2, 3} -> "scalar" [] t \in {4, 5} -> "list" [] OTHER -> "bool"
+VText(v) == IF ~Typed(v) THEN <<"token", v>> ELSE <<TextClass(VType(v)), v % 1000>>
+SameText(a, b) == \A k \in Keys : VText(a[k]) = VText(b[k])
+TextTwins(a, b) == a # b /\ SameText(a, b)
 (* a view's attribute filter reports a measurement under its filtered set *)
 Filtered(f, a) == IF f.on THEN [k \in Keys |-> IF k \in KeepSet(f) THEN a[k] ELSE 0] ELSE Norm(a)
 
